@@ -5,8 +5,10 @@ pub mod gen;
 pub mod mon;
 pub mod prng;
 pub mod refi;
+pub mod regress;
 pub mod reps;
 pub mod run;
 pub mod shrink;
 
+pub mod c01;
 pub mod c02;
